@@ -96,6 +96,36 @@ def run_case(ctx, mr, case):
                              f'fully-decrypted get_data({o:#x},{ln:#x}): Coq model and implementation differ')
     finally:
         r.close()
+    # a header that declares MORE than the file holds (content size field raised, file unchanged): the view ends where the file ends,
+    # and the Coq model with the file length as bound (Model/NcchFull.v fulldec_read_avail) returns the same bytes
+    if info['content_size'] <= 0x6000 and rng.random() < 0.5:
+        extra = rng.choice([1, 2, 0x10, 0x100000])
+        over = bytearray(image[:info['content_size']])
+        units = info['content_size'] // 0x200 + extra
+        over[0x104:0x108] = units.to_bytes(4, 'little')
+        over = bytes(over)
+        info2 = dict(info, content_size=units * 0x200, plain=dict(info['plain'], header=over[:0x200]))
+        try:
+            r3, _ = nc.open_reader(over, kwargs)
+        except Exception as ex:
+            ctx.diff('oracle', 'fulldec-overdeclared-open', dict(case, extra=extra), 'a reader', pyenv.errname(ex), 'a header declaring more than the file holds made the container unopenable')
+            r3 = None
+        if r3 is not None:
+            try:
+                for _ in range(3):
+                    o = rng.choice([0, rng.randrange(0, n + 1), n - 1, n, n + 0x200])
+                    ln = rng.choice([1, 0x200, 0x201, n, units * 0x200, rng.randrange(0, n + 0x400)])
+                    got = r3.get_data(NCCHSection.FullDecrypted, o, ln)
+                    out = mr.ask(model_line(info2, over, o, ln).replace('fulldec ', 'fulldeca ', 1))
+                    mbytes, munits = out.split(' ')
+                    ctx.stat('model_reads_overdeclared')
+                    if unhx(mbytes) != got:
+                        ctx.diff('corr', 'fulldec-avail-model', dict(case, off=o, size=ln, extra=extra), mbytes[:80], hx(got)[:80],
+                                 f'fully-decrypted get_data({o:#x},{ln:#x}) on a header declaring {extra} units more than the file holds: Coq model and implementation differ')
+                    if len(got) > max(0, n - o):
+                        ctx.diff('oracle', 'fulldec-overdeclared-bytes', dict(case, off=o, size=ln, extra=extra), max(0, n - o), len(got), 'more bytes came back than the file holds')
+            finally:
+                r3.close()
     # re-parse the image with an engine that holds no NCCH keys
     pyenv.uninstall_fake_boot9()
     e = CryptoEngine(setup_b9_keys=False)
@@ -135,7 +165,7 @@ def run_cases(ctx, cases):
 
 
 def run(ctx):
-    proof = prove('C04', [], ['C04_props'], static_deps=['Proofs/NcchFullProofs.v'])
+    proof = prove('C04', [], ['C04_props'], static_deps=['Proofs/NcchFullProofs.v', 'Proofs/NcchAvailProofs.v'])
     run_cases(ctx, gen_cases(ctx, ctx.rng))
 
     def search():
